@@ -247,14 +247,21 @@ def mutate(r, t):
     return t.replace('"', '"\\ud800', 1)
 
 
+def _f15(s):
+    # serde_json (without its float_roundtrip feature) parses long mantissas up to 1 ULP off the correctly rounded
+    # value: f64 parsing/printing is an oracle, floats are compared to 15 significant digits
+    return float("%.15g" % float(s))
+
+
 def _num_hook(s):
     i = int(s)
-    return i if (-2 ** 63 <= i <= 2 ** 64 - 1 and s != "-0") else float(s)
+    return i if (-2 ** 63 <= i <= 2 ** 64 - 1 and s != "-0") else _f15(s)
 
 
 def canon_json_text(b):
-    """parsed form for comparing two printers modulo the f64 oracle (a float lexeme vs ryu's spelling)"""
-    return _json.loads(b.decode(), parse_int=_num_hook)
+    """parsed form for comparing two printers modulo the f64 oracle (a float lexeme vs ryu's spelling); objects stay
+    ORDERED lists of pairs - member order is part of what is compared"""
+    return _json.loads(b.decode(), parse_int=_num_hook, parse_float=_f15, object_pairs_hook=lambda ps: ("obj", list(ps)))
 
 
 import re as _re
@@ -275,9 +282,20 @@ def outside_f64_oracle(t):
     return False
 
 
-def same_output(a, b):
+def has_float_lexeme(t):
+    for m in _NUM.finditer(t):
+        lx = m.group(0)
+        if any(c in lx for c in ".eE") or lx == "-0" or len(lx.lstrip("-")) > 19 or not (-2 ** 63 <= int(lx) <= 2 ** 64 - 1):
+            return True
+    return False
+
+
+def same_output(a, b, text=None):
+    """byte-for-byte, unless the input carries a float lexeme (then: same structure, same order, numbers equal as f64)"""
     if a == b:
         return True
+    if text is not None and not has_float_lexeme(text):
+        return False
     if a.startswith("OK ") and b.startswith("OK "):
         try:
             return canon_json_text(unxh(a[3:])) == canon_json_text(unxh(b[3:]))
@@ -365,7 +383,7 @@ def run_json(seed, n_values, n_frames, fixed=True):
             continue
         stats["json_texts"] += 1
         stats["json_accepted" if i.startswith("OK") else "json_rejected"] += 1
-        if not same_output(i, m):
+        if not same_output(i, m, t):
             viol.append(dict(what=f"JSON text {t[:120]!r} (nesting {nest_of(t)}): serde_json {'-> ' + unxh(i[3:]).decode()[:120] if i.startswith('OK') else 'rejects'}, "
                                   f"the model {'-> ' + unxh(m[3:]).decode()[:120] if m.startswith('OK') else 'rejects'}", input=t))
         elif i.startswith("OK"):
@@ -392,7 +410,7 @@ def run_json(seed, n_values, n_frames, fixed=True):
             continue
         stats["frame_texts"] += 1
         stats["frames_accepted" if i.startswith("OK") else "frames_rejected"] += 1
-        if not same_output(i, m):
+        if not same_output(i, m, t):
             viol.append(dict(what=f"frame text {t[:200]!r}: Frame deserializer {'-> ' + unxh(i[3:]).decode()[:160] if i.startswith('OK') else 'rejects'}, "
                                   f"the model {'-> ' + unxh(m[3:]).decode()[:160] if m.startswith('OK') else 'rejects'}", input=t))
         if i.startswith("OK"):
